@@ -324,6 +324,9 @@ def _do_ref_op(refs, op, names=None, shas=None):
     if k == "pack":
         refs.pack_refs(all=True)
         return ["none"]
+    if k == "unpack":
+        refs.add_packed_refs({REF_NAMES[op[1]]: None})
+        return ["none"]
     if k == "list":
         d = refs.as_dict()
         return ["dict", sorted([PATH2REF.get(n.decode(), n.decode()), vs(v)] for n, v in d.items())]
@@ -743,6 +746,8 @@ def _mop(op):
         return f"symref:{op[1]}:{op[2]}"
     if k in ("pack", "list", "keys"):
         return k
+    if k == "unpack":
+        return f"unpack:{op[1]}"
     if k == "commit":
         return f"commit:{op[1]}:{op[2]}"
     raise ValueError(op)
@@ -852,6 +857,10 @@ def spec_apply(m, op):
         return m2, ("none",)
     if k == "pack":
         return m, ("none",)
+    if k == "unpack":      # add_packed_refs({name: None}): "if a target is None that means remove the ref"
+        m2 = dict(m)
+        m2.pop(op[1], None)
+        return m2, ("none",)
     if k == "commit":      # atomically: parent = current head, head := the new commit
         real, c = _resolve(m, op[1])
         m2 = dict(m)
@@ -936,19 +945,39 @@ def abs_init(init):
 
 KNOWN_CLASSES = {
     "RL": "remove-if-equals-packed-refs-lock-busy-leaves-half-deleted-ref",
-    "PS": "pack-refs-overwrites-concurrent-update",
+    "UL": "add-packed-refs-none-deletes-without-ref-lock",
+    "PSD": "pack-refs-resurrects-deleted-ref",
+    "PSU": "pack-refs-overwrites-concurrent-update",
     "RR": "remove-if-equals-loose+packed-resurrects",
     "PW": "reader-during-pack-refs-sees-missing",
     "SR": "symref-retargeted-between-follow-and-lock",
     "AN": "add-if-new-via-symref-rechecks-packed-under-wrong-name",
 }
 _READISH = {"openr", "stat", "lstat", "openrp", "statp", "scan"}
+_DELETES = ("rm", "del", "unpack")
+
+
+def _holder_at(ev, r, t):
+    """who holds `<r>.lock` just before event index t"""
+    holder = None
+    for i in range(t):
+        e = ev[i]
+        if e[2] == r and e[1] == "openx" and e[3] == "ok":
+            holder = int(e[0])
+        elif e[2] == r and e[1] in ("rmlock", "replace") and holder == int(e[0]):
+            holder = None
+    return holder
 
 
 def patterns(sc, run):
+    """The known interleaving patterns present in this very run (from its own event trace)."""
     ev = [e.split(":") for e in run["ev"]]
     pats = set()
     n = len(ev)
+
+    def kind_of(b, r):
+        ks = {op[0] for op in sc["actors"][b] if len(op) > 1 and op[1] in (int(r), 0)}
+        return "delete" if ks & set(_DELETES) else "update"
     for a, alist in enumerate(sc["actors"]):
         mine = [i for i, e in enumerate(ev) if int(e[0]) == a]
         kinds = {op[0] for op in alist}
@@ -959,28 +988,50 @@ def patterns(sc, run):
                 t_read = next((i for i in mine if t_scan is not None and i > t_scan and ev[i][1] == "openr" and ev[i][2] == r), None)
                 t_rm = next((i for i in mine if ev[i][1] == "rm" and ev[i][2] == r), None)
                 if t_read is not None:
-                    end = t_rm if t_rm is not None else (t_rep if t_rep is not None else n)
-                    for i in range(t_read + 1, end):
+                    ends = [x for x in (t_rm, t_rep) if x is not None]
+                    t_end = max(ends) if ends else n
+                    # a deletion of r by somebody else overlaps [pack read the value, pack renamed packed-refs]:
+                    # the stale value goes into packed-refs although the ref is (being) deleted
+                    for b, blist in enumerate(sc["actors"]):
+                        if b == a or not any(op[0] in _DELETES and op[1] == int(r) for op in blist):
+                            continue
+                        theirs = [i for i, e in enumerate(ev) if int(e[0]) == b and e[2] in (r, "")]
+                        if theirs and theirs[-1] > t_read and theirs[0] < (t_rep if t_rep is not None else n):
+                            pats.add("PSD")
+                    # an update of r lands between the read and pack's unlink of the loose file
+                    for i in range(t_read + 1, t_end):
                         e = ev[i]
-                        if int(e[0]) != a and ((e[1] in ("replace", "rm") and e[2] == r) or e[1] == "replacep"):
-                            pats.add("PS")
+                        if int(e[0]) != a and ((e[1] == "replace" and e[2] == r) or
+                                               (e[1] == "replacep" and kind_of(int(e[0]), r) == "update")):
+                            pats.add("PSU")
                 if t_rm is not None and ev[t_rm][3] == "ok":
-                    # ... or pack_refs removes the loose file while somebody else HOLDS that ref's lock
-                    holder = None
-                    for i in range(t_rm):
-                        e = ev[i]
-                        if e[2] == r and e[1] == "openx" and e[3] == "ok":
-                            holder = int(e[0])
-                        elif e[2] == r and e[1] in ("rmlock", "replace") and holder == int(e[0]):
-                            holder = None
+                    # ... or pack_refs unlinks the loose file while somebody else HOLDS that ref's lock
+                    holder = _holder_at(ev, r, t_rm)
                     if holder is not None and holder != a:
-                        pats.add("PS")
-                    end = t_rep if t_rep is not None else n
-                    for i in range(t_rm + 1, end):
-                        e = ev[i]
-                        if int(e[0]) != a and e[1] in _READISH and e[2] in (r, ""):
-                            pats.add("PW")
+                        pats.add("PSD" if kind_of(holder, r) == "delete" else "PSU")
+                    if t_rep is not None and t_rm < t_rep:       # old order only: unlink before the rename
+                        for i in range(t_rm + 1, t_rep):
+                            e = ev[i]
+                            if int(e[0]) != a and e[1] in _READISH and e[2] in (r, ""):
+                                pats.add("PW")
         for op in alist:
+            if op[0] == "unpack":
+                # add_packed_refs({r: None}) drops the packed entry and unlinks the loose file without the ref lock
+                r = str(op[1])
+                t0 = next((i for i in mine if ev[i][1] == "openxp"), None)
+                t_rm = next((i for i in mine if ev[i][1] == "rm" and ev[i][2] == r), None)
+                t_rep = next((i for i in mine if ev[i][1] == "replacep"), None)
+                if t0 is not None:
+                    end = t_rm if t_rm is not None else (t_rep if t_rep is not None else n)
+                    for i in range(t0, end + 1 if end < n else n):
+                        e = ev[i]
+                        if int(e[0]) != a and e[2] == r and e[1] in ("replace", "rm", "openx", "rmlock"):
+                            pats.add("UL")
+                    for t in (t_rep, t_rm):
+                        if t is not None:
+                            h = _holder_at(ev, r, t)
+                            if h is not None and h != a:
+                                pats.add("UL")
             if op[0] in ("rm", "del"):
                 r = str(op[1])
                 t_rm = next((i for i in mine if ev[i][1] == "rm" and ev[i][2] == r and ev[i][3] == "ok"), None)
@@ -1028,7 +1079,7 @@ def classify(sc, run, model_agrees):
     if not model_agrees:
         return None
     pats = patterns(sc, run)
-    for p in ("RL", "PS", "RR", "PW", "AN", "SR"):
+    for p in ("RL", "UL", "PSD", "PSU", "RR", "PW", "AN", "SR"):
         if p in pats:
             return KNOWN_CLASSES[p]
     return None
@@ -1048,6 +1099,9 @@ INITS = {
     "both": _init(("2", "1")),
     "bothsame": _init(("1", "1")),
     "absent-pf": _init(pf=True),
+    # a second ref lives in packed-refs only: every rewrite of packed-refs must carry it along
+    "packed+ypacked": _init((None, "1"), (None, "3")),
+    "both+ypacked": _init(("2", "1"), (None, "3")),
 }
 # symref scenarios: a second branch exists
 INITS_SYM = {
@@ -1067,7 +1121,8 @@ def ops_for(init, w):
     out = []
     for n in (1, 0):
         out += [["cas", n, cur, w], ["cas", n, wrong, w], ["set", n, w], ["add", n, w], ["get", n]]
-    out += [["cas", 1, "Z", w], ["rm", 1, cur], ["rm", 1, wrong], ["del", 1], ["read", 1], ["pack"], ["list"], ["keys"]]
+    out += [["cas", 1, "Z", w], ["rm", 1, cur], ["rm", 1, wrong], ["del", 1], ["read", 1], ["pack"], ["list"], ["keys"],
+            ["unpack", 1]]
     return out
 
 
@@ -1092,6 +1147,13 @@ def core_pairs(init):
         ([["pack"]], [["keys"]]),
         ([["read", 2], ["cas", 1, cur, "5"]], [["read", 2], ["cas", 1, cur, "6"]]),   # warm packed-refs caches
         ([["read", 2], ["read", 1]], [["pack"]]),
+        # holders of packed-refs.lock that may find nothing (left) to do must abort, not rewrite
+        ([["rm", 1, cur]], [["unpack", 1]]),
+        ([["del", 1]], [["unpack", 1]]),
+        ([["del", 1]], [["pack"]]),
+        ([["unpack", 1]], [["unpack", 1]]),
+        ([["unpack", 1]], [["pack"]]),
+        ([["del", 1]], [["del", 2]]),
     ]
 
 
@@ -1248,7 +1310,7 @@ def _refs_jobs(ctx, thorough):
     # 2. the full pair matrix: a seeded sample in quick, everything in thorough
     combos = []
     for iname, init in INITS.items():
-        if iname == "absent-pf":
+        if iname in ("absent-pf", "both+ypacked"):
             continue
         for a in ops_for(init, "5"):
             for b in ops_for(init, "6"):
@@ -1284,7 +1346,7 @@ def _refs_jobs(ctx, thorough):
                      [[["lcas", 1, cur, "5"]], [["lcas", 1, cur, "6"]]], [[["lcas", 0, cur, "5"]], [["read", 1]]]):
             jobs.append(("lockedref", "refs", {"init": init, "actors": acts}, {"dfs": 2, "max": 600}))
     # 4. triples: random op triples, one pre-emption exhaustively + random schedules beyond
-    inits = [i for k, i in INITS.items() if k != "absent-pf"]
+    inits = [i for k, i in INITS.items() if k not in ("absent-pf", "both+ypacked")]
     for _ in range(ctx.budget(8, mult=12)):
         init = rng.choice(inits)
         t = [[rng.choice(ops_for(init, w))] for w in ("5", "6", "7")]
